@@ -25,6 +25,11 @@ func IndexTable(db objects.Store, tblSum []byte, tbl *objects.Table, logger logr
 		blkIdxSum []byte
 	)
 	logger = logger.WithName("IndexTable")
+	for _, i := range tbl.PK {
+		if int(i) >= len(tbl.Columns) {
+			return fmt.Errorf("primary key index %d out of range (%d columns)", i, len(tbl.Columns))
+		}
+	}
 	logger.Info("indexing table", "sum", tblSum)
 	for i, sum := range tbl.Blocks {
 		blk, bb, err = objects.GetBlock(db, bb, sum)
@@ -33,6 +38,12 @@ func IndexTable(db objects.Store, tblSum []byte, tbl *objects.Table, logger logr
 		}
 		if len(blk) == 0 {
 			return fmt.Errorf("block %x has no rows", sum)
+		}
+		// a table received from elsewhere may not describe its blocks truthfully
+		for _, row := range blk {
+			if len(row) != len(tbl.Columns) {
+				return fmt.Errorf("block %x has a row of %d cells, table has %d columns", sum, len(row), len(tbl.Columns))
+			}
 		}
 		if len(tbl.PK) > 0 {
 			tblIdx[i] = slice.IndicesToValues(blk[0], tbl.PK)
